@@ -6,7 +6,9 @@ import (
 	"fmt"
 	"os"
 	"path/filepath"
+	"runtime/debug"
 	"strings"
+	"time"
 
 	"github.com/jsightapi/jsight-schema-core/fs"
 
@@ -20,6 +22,7 @@ type buildOut struct {
 	End     string          `json:"end"` // ok | err | panic
 	Err     *errOut         `json:"err,omitempty"`
 	Panic   string          `json:"panic,omitempty"`
+	Site    string          `json:"site,omitempty"` // first frame of this repository in the panic's stack
 	JSON    json.RawMessage `json:"json,omitempty"`
 	JSONErr string          `json:"jsonerr,omitempty"`
 	Ms      float64         `json:"ms"`
@@ -46,12 +49,40 @@ func buildOne(tc *treeCase) (out buildOut) {
 		out.End = "setup-error: " + err.Error()
 		return out
 	}
+	t0 := time.Now()
 	defer func() {
+		out.Ms = float64(time.Since(t0).Microseconds()) / 1000
 		if r := recover(); r != nil {
 			out.End = "panic"
 			out.Panic = fmt.Sprint(r)
+			out.Site = repoFrame(string(debug.Stack()))
 		}
 	}()
+	if tc.Mode == "kit-missing" {
+		_, je := kit.NewJapi(filepath.Join(root, "does-not-exist.jst"))
+		if je != nil {
+			out.End = "err"
+			out.Err = convErr(root, je)
+			return out
+		}
+		out.End = "ok"
+		return out
+	}
+	if tc.Mode == "kit-file" {
+		j, je := kit.NewJapi(filepath.Join(root, filepath.FromSlash(tc.Root)))
+		if je != nil {
+			out.End = "err"
+			out.Err = convErr(root, je)
+			return out
+		}
+		out.End = "ok"
+		if b, e := j.ToJson(); e == nil {
+			out.JSON = json.RawMessage(b)
+		} else {
+			out.JSONErr = e.Error()
+		}
+		return out
+	}
 	var opts []core.Option
 	if len(tc.Banned) > 0 {
 		var ks []directive.Enumeration
@@ -80,6 +111,32 @@ func buildOne(tc *treeCase) (out buildOut) {
 	}
 	out.JSON = json.RawMessage(b)
 	return out
+}
+
+// repoFrame returns "function (file:line)" of the innermost frame that belongs to
+// jsight-api-core itself (not the harness, not the dependency, not the runtime).
+func repoFrame(stack string) string {
+	lines := strings.Split(stack, "\n")
+	for i := 0; i+1 < len(lines); i++ {
+		l := lines[i]
+		if strings.HasPrefix(l, "github.com/jsightapi/jsight-api-core/") {
+			fn := l
+			if j := strings.LastIndex(fn, "("); j > 0 {
+				fn = fn[:j]
+			}
+			loc := strings.TrimSpace(lines[i+1])
+			if j := strings.Index(loc, " +"); j > 0 {
+				loc = loc[:j]
+			}
+			if j := strings.Index(loc, "jsight-api-core/"); j >= 0 {
+				loc = loc[j+len("jsight-api-core/"):]
+			} else if strings.HasPrefix(loc, "/repo/") {
+				loc = loc[len("/repo/"):]
+			}
+			return strings.TrimPrefix(fn, "github.com/jsightapi/jsight-api-core/") + " (" + loc + ")"
+		}
+	}
+	return ""
 }
 
 func cmdBuild(args []string) {
